@@ -160,3 +160,11 @@ def run(model: Model, rep: Report) -> None:
     ei2 = model.func(PI + "PDFPageInterpreter.do_Do")
     sd = "".join(unparse(ei2.node).split()).replace("('Height'inxobj)", "'Height'inxobj")
     r10.check("elifsubtypeisLITERAL_IMAGEand'Width'inxobjand'Height'inxobj:self.device.begin_figure(xobjid,(0,0,1,1),MATRIX_IDENTITY)self.device.render_image(xobjid,xobj)self.device.end_figure(xobjid)" in sd, site(ei2), ei2.qualname, "an image XObject is rendered inside a unit figure named after the XObject, with the XObject's own stream", why="image branch of do_Do changed")
+    # ---------------------------------------------------------------- R11: positions handed to the inline-image reader are positions in the current stream
+    r11 = rep.rule("C18-R11", "WRITESET", "content parser refill: the buffer position is taken from the stream that is open now (self.fp.tell()), so `ID` seeks to the right place in the second and later streams of a Contents array", 1)
+    fb2 = model.func(PI + "PDFContentParser.fillbuf")
+    r11.check("self.fillfp()self.bufpos=self.fp.tell()self.buf=self.fp.read(self.BUFSIZ)" in "".join(unparse(fb2.node).split()), site(fb2), fb2.qualname, "self.bufpos = self.fp.tell() right after fillfp() and before the read", why="refill sequence changed")
+    # ---------------------------------------------------------------- R12 (C03-R5 shared): PNG-predicted image data
+    from .c03 import png_filters_rule
+
+    png_filters_rule(model, rep, "C18-R12")
